@@ -17,10 +17,6 @@ class RecordingAstBuilder(gh.AstBuilder):
         self.ev = []
         self.delivered = []
 
-    def __len__(self):
-        # a recording builder is a container of what it recorded: empty (falsy) when handed to the parser
-        return len(self.delivered)
-
     def start_rule(self, rule_type):
         self.ev.append(("start", rule_type))
         super().start_rule(rule_type)
